@@ -8,6 +8,8 @@ cd "$(dirname "$0")"
 export GOFLAGS=-mod=mod GOPROXY=off GOSUMDB=off GOTOOLCHAIN=local
 VERIF=$(pwd)
 REPO=${VERIF_REPO:-/repo}
+# evidence and replays go next to this script (a snapshot of /verif writes into the snapshot, never into /verif)
+export VERIF_OUT=${VERIF_OUT:-$VERIF}
 BIN=${VERIF_BIN:-$VERIF/.bin}
 BUILD=${VERIF_BUILD:-$VERIF/.build}
 mkdir -p "$BIN" "$BUILD"
